@@ -62,6 +62,7 @@ def replay_index(cases, F, mon):
     executed = 0
     tags = ["int", "str", "float", "date", "object"]
     for n_case, c in enumerate(cases):
+        n_case = c.get("_n", n_case)
         tag = tags[n_case % len(tags)]
         pal = (n_case // 5) % 3
         n = c["n"]
@@ -199,6 +200,7 @@ def operand_vals(tag, n, pal, side):
 def replay_elem(cases, F, mon):
     executed = 0
     for n_case, c in enumerate(cases):
+        n_case = c.get("_n", n_case)
         mode, la, lb = c["mode"], c["la"], c["lb"]
         na, nb = set(c["na"]), set(c["nb"])
         for pn, (lt, rt, ops) in enumerate(PAIRS):
@@ -283,6 +285,26 @@ def replay_elem(cases, F, mon):
                 if any(r is x for x, _ in views):
                     F.add("operands_unchanged", c, "result is an operand", "a new vector", **info)
                 mon.see(r, f"{mode}:{opname}", rule=not is_cmp)
+        # comparisons of two vectors that differ ONLY at positions whose hash() collides (-1 / -2,
+        # 0 / 2**61-1): the result must still be Python's own comparison
+        if mode == "vv" and c["ok"] and la >= 1 and not na and not nb:
+            base = [5, 7, 9][:la - 1]
+            for a0, b0 in ((-1, -2), (0, 2 ** 61 - 1), (-2, -1)):
+                lv, rv = [a0] + base, [b0] + base
+                for opname in ("eq", "ne", "le", "gt"):
+                    fn = CMP_OPS[opname]
+                    exp = [bool(fn(x, y)) for x, y in zip(lv, rv)]
+                    st, r, ex = attempt(lambda: fn(Vector(list(lv)), Vector(list(rv))))
+                    executed += 1
+                    info = {"op": opname, "tags": ["int", "int"], "values": [lv, rv]}
+                    if st != "ok":
+                        F.add("compare", c, "raised " + type(ex).__name__, exp, **info)
+                    elif list(r) != exp:
+                        F.add("compare", c, list(r), exp, **info)
+                lstr, rstr = ["a"] + ["s"] * (la - 1), ["b"] + ["s"] * (la - 1)
+                st, r, ex = attempt(lambda: Vector(list(lstr)) == Vector(list(rstr)))
+                if st == "ok" and list(r) != [x == y for x, y in zip(lstr, rstr)]:
+                    F.add("compare", c, list(r), [x == y for x, y in zip(lstr, rstr)], op="eq", tags=["str", "str"])
         # unary operators on the written-left operand (vector forms only)
         if mode == "vs":
             for tag in ("int", "float", "bool", "complex"):
@@ -342,6 +364,7 @@ def replay_na(cases, F, mon):
     executed = 0
     tags = ["int", "float", "str", "date", "bool"]
     for n_case, c in enumerate(cases):
+        n_case = c.get("_n", n_case)
         for tag in tags:
             pal = n_case % 3
             conc = lambda x: None if x == -1 else (bool(x % 2) if tag == "bool" else A.concrete(tag, x, pal))   # noqa: E731
@@ -374,6 +397,44 @@ def replay_na(cases, F, mon):
                 if r.schema() is not None and r.schema().nullable:
                     F.add("fillna_nullable", c, str(r.schema()), "non-nullable", **info)
                 mon.see(r, "fillna")
+            # the same laws on vectors with a HISTORY: no None left, but the dtype still says nullable
+            # (a mask / slice that leaves the Nones behind, a None overwritten in place)
+            if any(x is None for x in vals) and expd:
+                keep = [x is not None for x in vals]
+                derived = [("v[mask of non-None]", lambda: v[list(keep)]),
+                           ("v[Vector mask]", lambda: v[Vector(list(keep))])]
+                first = next(i for i, x in enumerate(vals) if x is not None)
+                if all(keep[first:]) or True:
+                    lo = first
+                    hi = lo + 1
+                    while hi < len(vals) and vals[hi] is not None:
+                        hi += 1
+                    derived.append(("v[a:b] without None", lambda: v[lo:hi]))
+
+                def overwritten():
+                    w = v.copy()
+                    for i, x in enumerate(vals):
+                        if x is None:
+                            w[i] = expd[0]
+                    return w
+                derived.append(("None overwritten in place", overwritten))
+                for label, mk in derived:
+                    st, d, ex = attempt(mk)
+                    if st != "ok":
+                        continue
+                    dvals = list(d)
+                    if any(x is None for x in dvals):
+                        continue
+                    executed += 1
+                    for opname, call in (("fillna", lambda: d.fillna(fillv)), ("dropna", lambda: d.dropna())):
+                        st, r, ex = attempt(call)
+                        if st != "ok" or not views_equal(list(r), dvals):
+                            F.add(opname, c, list(r) if st == "ok" else type(ex).__name__, dvals, history=label, **info)
+                        elif r.schema() is not None and r.schema().nullable:
+                            F.add(opname + "_nullable", c, str(r.schema()), "non-nullable", history=label, **info)
+                    st, r, ex = attempt(lambda: d.isna())
+                    if st != "ok" or any(list(r)):
+                        F.add("isna", c, list(r) if st == "ok" else type(ex).__name__, [False] * len(dvals), history=label, **info)
             # reductions skip None: equal Python's reduction of the None-free list
             clean = expd
             reds = {"int": ["sum", "mean", "min", "max", "stdev", "any", "all"], "float": ["sum", "mean", "min", "max", "stdev", "any", "all"],
@@ -447,6 +508,7 @@ def mk_key(key, form):
 def replay_assign(cases, F, mon):
     executed = 0
     for n_case, c in enumerate(cases):
+        n_case = c.get("_n", n_case)
         n, key, value = c["n"], c["key"], c["value"]
         kind = key[0]
         for form in range(3 if kind == "list" else (2 if kind == "mask" else 1)):
@@ -541,6 +603,7 @@ CONV = {("int", "float"): float, ("int", "complex"): complex, ("float", "complex
 def replay_atype(cases, F, mon):
     executed = 0
     for n_case, c in enumerate(cases):
+        n_case = c.get("_n", n_case)
         kind, nullable, tags = c["kind"], c["nullable"], c["tags"]
         if kind == "object":
             base = [1, "a", 2.5]
